@@ -390,6 +390,25 @@ ADDENDA8 = {
     "C18": "; relabelled port of Sram-only modes; number conversion; documented bandwidths of the bundled configuration",
     "C19": "; shared quantisation records and numpy view rows (borrowed)",
 }
+ADDENDA10 = {
+    "C02": "; operator-view comparison of the brick-format restriction (vacuous comparisons); memory-only predicate folded for Op.Memcpy",
+    "C03": "; access-set coverage of IFM2 and LUT block dependency (borrowed)",
+    "C04": "; queue depths of the wait model (single writer, literals per accelerator family)",
+    "C05": "; parallel stores into the HillClimb turn order simulated over all aliasing patterns; order-preserving writers of the Greedy allocation list; address reads off the call's own visited list",
+    "C06": "; no process-wide memo in the command stream modules (borrowed state inventory); operand-order bit decided on every path",
+    "C07": "; clang-AST nesting of the two slice cursors; operator type of the stride division in the wrapper",
+    "C11": "; placement-blind passes before the supported-operator check (finding F129); walk order of the interface index vectors; clone completeness (borrowed)",
+    "C12": "; brick-format restriction (borrowed)",
+    "C13": "; None-hole lint through enumerate and carrier tuples; finite clamp literals of the table stand-in",
+    "C14": "; in-place writes through self to class-level containers; enumerate position before the object in tuple sort keys",
+    "C15": "; conjunct sets guarding the SHRAM layout registers",
+    "C16": "; operands examined per generic constraint resolved through accessor bodies and operand index tables (finding F128); NHWC attribute tuple order; same-operator type / placement guards; polarity-aware both-axes conditions",
+    "C18": "; accelerator-only tests of the internal defaults; selections stored verbatim",
+    "C19": "; folded constants of the int16 table generator; no process-wide memo in the table modules (borrowed)",
+}
+for _pid, _t10 in ADDENDA10.items():
+    _tech, _text, _note, _ref = CLAIMS[_pid]
+    CLAIMS[_pid] = (_tech + _t10, _text, _note, _ref)
 for _pid, _t8 in ADDENDA8.items():
     _tech, _text, _note, _ref = CLAIMS[_pid]
     CLAIMS[_pid] = (_tech + _t8, _text, _note, _ref)
